@@ -22,14 +22,17 @@ pub fn eval(s: &Spec) -> Eval {
     let a = s.compute();
     let b = s.compute();
     ensure!(a == b, "{}: two instances in one thread give different sketches for the same input ({})", s.type_name(), describe_diff(&a, &b));
+    // an instance with an earlier, unrelated use that was reset (reinit / reset / self-clearing hash_set) is still "a sketcher constructed with the same parameters"
+    let r = s.compute_with_history(true);
+    ensure!(a == r, "{}: an instance that was used before and reset gives a different sketch than a new instance ({})", s.type_name(), describe_diff(&a, &r));
     let barrier = Arc::new(Barrier::new(THREADS));
     let outs: Vec<Vec<u64>> = std::thread::scope(|sc| {
         let hs: Vec<_> = (0..THREADS)
-            .map(|_| {
+            .map(|t| {
                 let barrier = barrier.clone();
                 sc.spawn(move || {
                     barrier.wait();
-                    s.compute()
+                    s.compute_with_history(t % 4 == 3)
                 })
             })
             .collect();
@@ -88,7 +91,7 @@ fn cross_process(ctx: &Ctx, specs: &[Spec], nproc: usize, sub: &str) {
 
 pub fn run(ctx: &Ctx) {
     ctx.set_rule("proptest generates a computation spec for every sketcher type of the crate (ProbMinHash2/3/3a/3aSha over u64 and String keys with every entry point incl. std HashMap, SuperMinHash f64/f32, SuperMinHash2 u64/u32, SetSketch u16/u32, \
-        OptDens/RevOptDens f64/f32, ProbOrdMinHash2 with FNV/WyHash) with parameters and input. Oracle: the bit pattern of all sketch views is identical for (i) two new instances in one thread, (ii) 16 new instances started together behind a barrier in 16 threads, \
+        OptDens/RevOptDens f64/f32, ProbOrdMinHash2 with FNV/WyHash) with parameters and input. Oracle: the bit pattern of all sketch views is identical for (i) two new instances in one thread and an instance that was used before and reset, (ii) 16 new instances started together behind a barrier in 16 threads, \
         (iii) new instances in freshly started child processes (new address space layout, new RandomState keys, new ThreadRng). Non-trivial = input of at least 2 items. Distinct = distinct serialised spec.");
     ctx.assume("the harness does not own the scheduler: thread interleavings are sampled; the sketchers share no mutable state, what is hunted is hidden per-instance / per-thread / per-process input");
     super::run_fixed_tier(ctx, replay);
